@@ -250,169 +250,12 @@ func c10R2(c *Ctx, rule string) {
 	p := c.P
 	csh := c.need(rule, "internal/server", "composeServerHello")
 	cr := c.need(rule, "internal/server", "composeReply")
-	arl := c.need(rule, "internal/server", "addRecordLayer")
-	if csh == nil || cr == nil || arl == nil {
+	if csh == nil || cr == nil {
 		return
 	}
-	// segments of composeServerHello: stores into the [11][]byte array
-	type seg struct {
-		consts []int64
-		symLen int64 // -1 unknown
-		desc   string
-	}
-	segs := map[int64]seg{}
-	var arr *ssa.Alloc
-	allInstrs(csh, func(i ssa.Instruction) {
-		if al, ok := i.(*ssa.Alloc); ok {
-			if at, ok := al.Type().(*types.Pointer).Elem().Underlying().(*types.Array); ok && typeStr(at.Elem()) == "[]byte" {
-				arr = al
-			}
-		}
-	})
-	if arr == nil {
-		c.Undecided(rule, "ServerHello segment array", c.atFn(csh), "not found")
-		return
-	}
-	nonceP, keyP, sidP := ssa.Value(csh.Params[1]), ssa.Value(csh.Params[2]), ssa.Value(csh.Params[0])
-	_ = nonceP
-	_ = keyP
-	sliceLen := func(v ssa.Value) int64 {
-		sl, ok := v.(*ssa.Slice)
-		if !ok {
-			return -1
-		}
-		lo, hi := int64(0), int64(-1)
-		if sl.Low != nil {
-			lo, _ = intConst(sl.Low)
-		}
-		if sl.High != nil {
-			hi, _ = intConst(sl.High)
-		}
-		if hi < 0 {
-			return -1
-		}
-		return hi - lo
-	}
-	for _, r := range *arr.Referrers() {
-		ia, ok := r.(*ssa.IndexAddr)
-		if !ok {
-			continue
-		}
-		k, isK := intConst(ia.Index)
-		if !isK {
-			continue
-		}
-		for _, rr := range *ia.Referrers() {
-			st, ok := rr.(*ssa.Store)
-			if !ok {
-				continue
-			}
-			if cb, ok := constBytes(st.Val); ok {
-				segs[k] = seg{consts: cb, symLen: int64(len(cb)), desc: fmt.Sprintf("% x", toBytes(cb))}
-				continue
-			}
-			if st.Val == sidP {
-				segs[k] = seg{symLen: -1, desc: "Sym(sessionId)"}
-				continue
-			}
-			if call, ok := st.Val.(*ssa.Call); ok && calleeName(&call.Call) == "builtin.append" {
-				l0, l1 := sliceLen(call.Call.Args[0]), sliceLen(call.Call.Args[1])
-				d := Expr(call)
-				var cs []int64
-				if cb, ok := constBytes(call.Call.Args[0]); ok {
-					l0 = int64(len(cb))
-					cs = cb
-				}
-				if mk, ok := call.Call.Args[1].(*ssa.MakeSlice); ok {
-					l1, _ = intConst(mk.Len)
-				}
-				if l0 >= 0 && l1 >= 0 {
-					segs[k] = seg{consts: cs, symLen: l0 + l1, desc: d}
-					continue
-				}
-			}
-			segs[k] = seg{symLen: -1, desc: Expr(st.Val)}
-		}
-	}
-	if len(segs) != 11 {
-		c.Undecided(rule, "ServerHello segments", c.atFn(csh), fmt.Sprintf("extracted %d of 11 segments", len(segs)))
-		return
-	}
-	cb := func(k int64) []int64 { return segs[k].consts }
-	be := func(bs []int64) int64 {
-		var v int64
-		for _, b := range bs {
-			v = v<<8 | b
-		}
-		return v
-	}
-	// total length with a 32-byte session id
-	total := int64(0)
-	for k := int64(0); k < 11; k++ {
-		if segs[k].symLen >= 0 {
-			total += segs[k].symLen
-		} else {
-			total += 32
-		}
-	}
-	c.Check(len(cb(0)) == 1 && cb(0)[0] == 2 && len(cb(1)) == 3 && be(cb(1)) == total-4, rule, "handshake header: type 2, declared length = composed length", c.atFn(csh), fmt.Sprintf("02 %06x, body %d bytes", be(cb(1)), total-4),
-		fmt.Sprintf("handshake type/length are % x / %d but the composed body is %d bytes", toBytes(cb(0)), be(cb(1)), total-4))
-	c.Check(len(cb(2)) == 2 && cb(2)[0] == 3 && cb(2)[1] == 3, rule, "server version 03 03", c.atFn(csh), "03 03", "legacy_version is not 0x0303")
-	c.Check(segs[3].symLen == 32 && strings.Contains(segs[3].desc, "nonce[0:12]") && strings.Contains(segs[3].desc, "[0:20]"), rule, "random = nonce(12) ‖ key[0:20]", c.atFn(csh), segs[3].desc, "the 32-byte random is not nonce ‖ first 20 bytes of the sealed key: "+segs[3].desc)
-	c.Check(len(cb(4)) == 1 && cb(4)[0] == 32 && segs[5].desc == "Sym(sessionId)", rule, "session id: length byte 0x20 followed by the client's session id", c.atFn(csh), "20 ‖ sessionId", "the ServerHello does not echo the session id parameter with length 32: "+segs[5].desc)
-	extLen := segs[9].symLen + segs[10].symLen
-	c.Check(len(cb(8)) == 2 && be(cb(8)) == extLen, rule, "extensions length = composed extensions", c.atFn(csh), fmt.Sprintf("%04x = %d", be(cb(8)), extLen), fmt.Sprintf("declared extensions length %d, composed %d", be(cb(8)), extLen))
-	ks := cb(9)
-	okKS := len(ks) == 8 && ks[0] == 0 && ks[1] == 0x33 && be(ks[2:4]) == segs[9].symLen-4 && ks[4] == 0 && ks[5] == 0x1d && be(ks[6:8]) == segs[9].symLen-8 && segs[9].symLen-8 == 32
-	c.Check(okKS, rule, "key_share extension: 0033 len 001d len32 ‖ 32 bytes", c.atFn(csh), fmt.Sprintf("% x ‖ %d bytes", toBytes(ks), segs[9].symLen-8), "key share extension header inconsistent with its 32-byte body")
-	// key exchange body = key[20:48] ‖ 4 random bytes: the copy source
-	okKE := false
-	allInstrs(csh, func(i ssa.Instruction) {
-		if call, ok := i.(*ssa.Call); ok && calleeName(&call.Call) == "builtin.copy" {
-			if strings.Contains(Expr(call.Call.Args[1]), "[20:48]") {
-				okKE = true
-			}
-		}
-	})
-	c.Check(okKE, rule, "key exchange carries key[20:48]", c.atFn(csh), "copy(keyExchange, encryptedSessionKeyWithTag[20:48])", "the remaining 28 bytes of the sealed key are not placed in the key share")
-	// composeReply: three records types 22, 20, 23 with version 03 03, CCS body 01
-	var recs [][3]string
-	allInstrs(cr, func(i ssa.Instruction) {
-		if call, ok := i.(*ssa.Call); ok && call.Call.StaticCallee() == arl {
-			t, _ := constBytes(call.Call.Args[1])
-			v, _ := constBytes(call.Call.Args[2])
-			body := "sym"
-			if b, ok := constBytes(call.Call.Args[0]); ok {
-				body = fmt.Sprintf("% x", toBytes(b))
-			}
-			recs = append(recs, [3]string{fmt.Sprintf("% x", toBytes(t)), fmt.Sprintf("% x", toBytes(v)), body})
-		}
-	})
-	okRecs := len(recs) == 3 && recs[0][0] == "16" && recs[1][0] == "14" && recs[2][0] == "17" && recs[1][2] == "01"
-	for _, r := range recs {
-		if r[1] != "03 03" {
-			okRecs = false
-		}
-	}
-	c.Check(okRecs, rule, "reply = handshake(22) ‖ change_cipher_spec(20, body 01) ‖ application_data(23), all version 03 03", c.atFn(cr), fmt.Sprint(recs), fmt.Sprintf("reply records are %v", recs))
-	// addRecordLayer template: typ ‖ ver ‖ BE16(len) ‖ input
-	okARL := false
-	{
-		var puts, copies int
-		allInstrs(arl, func(i ssa.Instruction) {
-			if call, ok := i.(*ssa.Call); ok {
-				n := calleeName(&call.Call)
-				if strings.Contains(n, "bigEndian).PutUint16") && strings.Contains(Expr(call.Call.Args[len(call.Call.Args)-1]), "len(input)") {
-					puts++
-				}
-				if n == "builtin.copy" {
-					copies++
-				}
-			}
-		})
-		okARL = puts == 1 && copies == 4
-	}
-	c.Check(okARL, rule, "server record wrapper: typ ‖ ver ‖ BE16(len(input)) ‖ input", c.atFn(arl), "PutUint16(length, len(input)); 4 copies", "the server's record wrapper does not encode the body length big-endian")
+	// the reply template on the flattened bytes: composeServerHello and composeReply are evaluated to byte sequences
+	// (bseq.go) whatever way they are put together, the record wrapper included
+	c10ReplyFlat(c, rule, csh, cr)
 	// echo: makeResponder's first argument is ch.sessionId of the ClientHello parsed from this packet, whose backing
 	// buffer is private to the parse (a fresh make, not a pool)
 	pfp := p.Func("internal/server", "TLS.processFirstPacket")
